@@ -323,7 +323,7 @@ func (d *Decls) rangeAssume(t string, typ types.Type, allocTerm string, depth in
 	case *types.Slice:
 		s := fmt.Sprintf("(and (>= (s-arr %s) 0) (>= (s-off %s) 0) (>= (s-len %s) 0) (<= (s-len %s) (s-cap %s)) (=> (= (s-arr %s) 0) (= (s-cap %s) 0)) (<= (+ (s-off %s) (s-cap %s)) 9223372036854775807)", t, t, t, t, t, t, t, t, t)
 		if allocTerm != "" {
-			s += fmt.Sprintf(" (< (s-arr %s) %s)", t, allocTerm)
+			s += fmt.Sprintf(" (>= (base (s-arr %s)) 0) (< (base (s-arr %s)) %s)", t, t, allocTerm)
 		}
 		return s + ")"
 	case *types.Struct:
